@@ -15,7 +15,11 @@ HINT = ("Earlier waves show that the hardest regressions to detect involve: stat
         "entry points, classes and code paths named by (or implied by) the property text that ordinary use never reaches; "
         "several live instances (objects, connections, ports, threads, senders) that should be independent but come to share state; "
         "configuration/setter calls between operations on a long-lived object; optional flags, alternative loaders and site-local data; "
-        "platform- or allocator-dependent behaviour (address order, fd numbers, hash-table growth).")
+        "platform- or allocator-dependent behaviour (address order, fd numbers, hash-table growth); "
+        "the real helper classes underneath the anchored ones (clocks, RPC stubs, allocators) that test doubles usually replace; "
+        "states reachable only through a valid multi-step protocol sequence (authenticate/lock/configure, then act); "
+        "resource exhaustion after many repetitions (descriptors, memory, counters); first-use races on lazily filled caches; "
+        "language-level entry points (moves, temporaries, implicit conversions, operator overloads).")
 for pid in sys.argv[2:]:
     p = props[pid]
     b = brief.replace('/tmp/atk_<ID>', '/tmp/%s_%s' % (prefix, pid)).replace('<ID>', pid)
